@@ -23,12 +23,13 @@ TICK = 0.5  # seconds of virtual time per spec tick
 
 class Hub:
     def __init__(self, timecode: bool = False, timing: bool = True, log_level: int = 100, salt: int = 0,
-                 chunk: Optional[int] = None):
+                 chunk: Optional[int] = None, space: Optional[int] = None):
         from . import vio
 
         vio._HASH_SALT[0] = (0x9E3779B1 * (salt + 1)) & 0x7FFFFFFF
         self.timecode = timecode
         self.chunk = chunk
+        self.space = space
         self.hs = F.hdr_struct(timecode).size
         self.net = Net()
         self._inst = Installed(self.net)
@@ -55,6 +56,8 @@ class Hub:
     def open(self, name: str):
         c = self.net.open_conn(name)
         self.net.ends[name].chunk = self.chunk
+        self.net.ends[name].space_per_round = self.space
+        self.net.ends[name].space = self.space
         self.raw[name] = c
         self.events.append({"a": "Open", "c": name})
         return c
@@ -215,7 +218,7 @@ class Hub:
                     # the write of an EMPTY payload failed: the header that went out just before it
                     # belongs to a frame the manager considers undelivered (the peer is gone)
                     bs = cur_bytes.get(name)
-                    if len(data) == 0 and bs is not None and len(bs) >= self.hs:
+                    if err != "BlockingIOError" and len(data) == 0 and bs is not None and len(bs) >= self.hs:
                         frs, rest = F.split_frames(bytes(bs), self.timecode)
                         if not rest and frs and len(frs[-1][1]) == 0:
                             del bs[len(bs) - self.hs:]
